@@ -1,7 +1,9 @@
 package mon
 
 import (
+	"bytes"
 	"fmt"
+	"net"
 	"strings"
 
 	"github.com/miekg/dns"
@@ -164,9 +166,80 @@ func c08CheckRR(w *core.W, r *model.Rec, exact bool) {
 	if l < len(packed) {
 		w.Violation("C08/rr-len-underestimates/"+r.L.Name, fmt.Sprintf("Len(rr)=%d < packed %d for %s", l, len(packed), cutS(built.String())), wit)
 	}
+	// the same record with its IPv4 addresses held in 16-octet form (what net.ParseIP and net.IPv4
+	// return): a valid value that packs to the same octets
+	if nc, _ := buildAny(r); nc != nil && c08SixteenOctetIPv4(nc) {
+		var l2 int
+		var p2 []byte
+		var e2 error
+		if !w.Guard("Len/PackRR(16-octet IPv4)", wit, func() { l2 = dns.Len(nc); p2, e2 = packRR(nc) }) {
+			w.Count("records_with_16_octet_ipv4", 1)
+			if e2 != nil {
+				if isBufErr(e2) {
+					w.Violation("C08/rr-pack-no-room/16-octet-ipv4/"+r.L.Name, fmt.Sprintf("%v", e2), wit)
+				}
+			} else {
+				if l2 < len(p2) {
+					w.Violation("C08/rr-len-underestimates/16-octet-ipv4/"+r.L.Name, fmt.Sprintf("Len(rr)=%d < packed %d with IPv4 addresses in 16-octet form", l2, len(p2)), wit)
+				}
+				if !bytes.Equal(p2, packed) {
+					w.Violation("C08/rr-pack-differs/16-octet-ipv4/"+r.L.Name, fmt.Sprintf("packed %d octets, %d with the 4-octet form", len(p2), len(packed)), wit)
+				}
+			}
+		}
+	}
 	if exact && l != len(packed) {
 		w.Violation("C08/rr-len-not-exact/"+r.L.Name, fmt.Sprintf("escape-free %s: Len(rr)=%d, packed %d", r.L.Name, l, len(packed)), wit)
 	}
+}
+
+// c08SixteenOctetIPv4 rewrites every IPv4 address of rr that is held in 4 octets into its 16-octet
+// form; it reports whether there was one.
+func c08SixteenOctetIPv4(rr dns.RR) bool {
+	ch := false
+	conv := func(ip *net.IP) {
+		if len(*ip) == 4 {
+			*ip = ip.To16()
+			ch = true
+		}
+	}
+	switch x := rr.(type) {
+	case *dns.A:
+		conv(&x.A)
+	case *dns.L32:
+		conv(&x.Locator32)
+	case *dns.SVCB:
+		for _, kv := range x.Value {
+			if h, ok := kv.(*dns.SVCBIPv4Hint); ok {
+				for i := range h.Hint {
+					conv(&h.Hint[i])
+				}
+			}
+		}
+	case *dns.HTTPS:
+		for _, kv := range x.Value {
+			if h, ok := kv.(*dns.SVCBIPv4Hint); ok {
+				for i := range h.Hint {
+					conv(&h.Hint[i])
+				}
+			}
+		}
+	case *dns.IPSECKEY:
+		if x.GatewayType == 1 {
+			conv(&x.GatewayAddr)
+		}
+	case *dns.AMTRELAY:
+		if x.GatewayType&0x7f == 1 {
+			conv(&x.GatewayAddr)
+		}
+	case *dns.OPT:
+		for _, o := range x.Option {
+			if sn, ok := o.(*dns.EDNS0_SUBNET); ok && sn.Family == 1 {
+				conv(&sn.Address)
+			}
+		}
+	}
+	return ch
 }
 
 func c08General(w *core.W, j int) {
